@@ -189,7 +189,13 @@ instance KeepsOpen_bind {α β : Type} (m : M α) (f : α → M β) [h1 : KeepsO
     KeepsOpen (m >>= f) :=
   ⟨fun st => (Tr_bind ..).2 (Tr_mono (h1.out st)
     (fun a st' e => Tr_mono ((h2 a).out st') (fun _ _ e' => ⟨e'.1.trans e.1, e'.2.trans e.2⟩)))⟩
-instance KeepsOpen_parseError (c v) : KeepsOpen (parseError c v) := ⟨fun _ => ⟨rfl, rfl⟩⟩
+theorem KeepsOpen_modify (f : PState → PState) (h : ∀ st, (f st).openElements = st.openElements ∧ F (f st) = F st) :
+    KeepsOpen (modify f : M PUnit) := ⟨fun st => h st⟩
+instance KeepsOpen_parseError (c v) : KeepsOpen (parseError c v) := by
+  unfold parseError
+  haveI := KeepsOpen_modify (fun st => { st with errors := st.errors.push (lit c, v.map fun p => (lit p.1, p.2)) })
+    (fun _ => ⟨rfl, rfl⟩)
+  infer_instance
 
 theorem popWhileLoop_tr (cond : NodeId → M Bool) [hc : ∀ n, RO (cond n)] (each : NodeId → M Unit)
     [he : ∀ n, KeepsOpen (each n)] (site : String) :
